@@ -265,12 +265,20 @@ func (c *Client) SendAccounting(ctx context.Context, req *AcctRequest) error {
 	// Status type
 	rfc2866.AcctStatusType_Set(packet, rfc2866.AcctStatusType(req.StatusType))
 
-	// Session ID
-	rfc2866.AcctSessionID_SetString(packet, req.SessionID)
+	// Session ID. The identifying attributes are mandatory: a value that does
+	// not fit an attribute (more than 253 octets) must fail the record instead
+	// of silently sending it without the identifier.
+	if err := rfc2866.AcctSessionID_SetString(packet, req.SessionID); err != nil {
+		return fmt.Errorf("accounting session id: %w", err)
+	}
 
 	// User identification
-	rfc2865.UserName_SetString(packet, req.Username)
-	rfc2865.NASIdentifier_SetString(packet, c.nasID)
+	if err := rfc2865.UserName_SetString(packet, req.Username); err != nil {
+		return fmt.Errorf("accounting user name: %w", err)
+	}
+	if err := rfc2865.NASIdentifier_SetString(packet, c.nasID); err != nil {
+		return fmt.Errorf("accounting NAS identifier: %w", err)
+	}
 	rfc2865.NASPort_Set(packet, rfc2865.NASPort(req.NASPort))
 
 	if req.MAC != nil {
@@ -283,7 +291,9 @@ func (c *Client) SendAccounting(ctx context.Context, req *AcctRequest) error {
 
 	// Class attribute (from auth response)
 	if req.Class != nil {
-		rfc2865.Class_Set(packet, req.Class)
+		if err := rfc2865.Class_Set(packet, req.Class); err != nil {
+			return fmt.Errorf("accounting class: %w", err)
+		}
 	}
 
 	// Counters (for interim and stop)
